@@ -280,3 +280,7 @@ package mysql
 //@   ensures col.GetLastIOError [C01,C04,C10,C11,C16]: result == ss.LastIOError
 //@ func (*mysql.SlaveStatusStruct).GetLastIOError
 //@   ensures col.GetLastIOError [C01,C04,C10,C11,C16]: result == ss.LastIOError
+//@ define statusRowOK(ss *ReplicaStatusStruct) = true
+//@ define slaveRowOK(ss *SlaveStatusStruct) = true
+//@ typeinv *mysql.ReplicaStatusStruct statusRowOK init mysql.NewNode
+//@ typeinv *mysql.SlaveStatusStruct slaveRowOK init mysql.NewNode
